@@ -3,6 +3,7 @@ from rules.builder import *
 from rules import C09 as C09mod
 
 LEVEL = 'proof'
+FIXTURES = ['F8', 'F4', 'F3']
 
 
 def header_bytes(f):
